@@ -248,8 +248,15 @@ class Exec:
             return "real"
         return None
 
+    def narrow_json_int(self, v, st):
+        """a JSON value that the path condition knows to be an integer (after `isinstance(x, int)`) takes part in arithmetic as an int"""
+        if v.ty[0] == "dyn" and not feasible(list(st.pc) + [z3.Not(z3.Or(dyn_is_int(v.term), dyn_is_bool(v.term)))]):      # bool is an int in Python; dyn_int covers both tags
+            return V(("int",), dyn_int(v.term))
+        return v
+
     def binop(self, op, l, r, st, node=None):
         l, r = self.unwrap(l, st), self.unwrap(r, st)
+        l, r = self.narrow_json_int(l, st), self.narrow_json_int(r, st)
         # list concatenation
         if isinstance(op, ast.Add) and l.ty[0] == "list" and r.ty[0] == "list":
             return self.list_concat(st, l, r)
